@@ -19,6 +19,7 @@ from pyvc.values import SV, CV, XV, PV, B, I, R, EngineError, to_z, real, arith,
 from pyvc.containers import PDict
 from pyvc.arrays import Table, Mat, Space, Arr, SegBound, subst, truth_z
 from pyvc.vc import consts
+from pyvc.interp import Native
 from pyvc import netmodel
 from contracts import ppcmodel as pm
 from contracts import C16
@@ -102,6 +103,7 @@ def run(vc):
 
     from contracts import C04_shunt
     C04_shunt.run(vc)
+    run_update_q(vc)
 
     if not hasattr(vc, "native_standins"):
         vc.native_standins = []
@@ -112,11 +114,49 @@ def run(vc):
         script="from replaylib.setpoints import main\nmain()\n"))
 
 
+def run_update_q(vc):
+    """_update_q (result routine of every AC power flow; callee of the Q-limit loop, which books the reactive power of a gen it has switched
+    off as a negative load and relies on the routine reporting nothing for it): a machine that is not in the list of running machines
+    reports q = 0, whatever it held before; the split among running machines only touches running machines."""
+    PS = "pandapower.pypower.pfsoln"
+    ig, iu = consts("pandapower.pypower.idx_gen"), consts("pandapower.pypower.idx_bus")
+
+    def h(p):
+        gsp = Space.get("ppcgen")
+        gen = Mat("gen", {"all": gsp})
+        q0 = pm.colfun(gen, "all", ig.QG)
+        pm.colfun(gen, "all", ig.QMIN); pm.colfun(gen, "all", ig.QMAX)
+        bus = pm.bus_mat()
+        pm.colfun(bus, "all", iu.QD)
+        osp = Space.get("on")
+        on = Arr(osp, SV(z3.Function("on_idx", I, I)(osp.i)))
+        gbus = Arr(osp, SV(z3.Function("gbus", I, I)(osp.i)))
+        me = p.it.modenv(PS)
+        for nm in ("csr_matrix", "asarray", "range", "ones"):
+            me.vals[nm] = Native(lambda it, *a, **k: Opaque("sparse"), name=nm)
+        me.vals["find"] = Native(lambda it, *a, **k: Arr(Space.get("ig"), SV(z3.Function("ig_idx", I, I)(Space.get("ig").i))), name="find")
+        g = z3.Int("g")      # a machine that is not running
+        p.assume(z3.And(g >= 0, g < gsp.n))
+        p.assume(z3.Not(to_z(on.e, I) == g))                       # for the generic running machine: it is another one
+        out = p.call(f"{PS}:_update_q", SV(z3.Real("baseMVA")), bus, gen, gbus, Opaque("Sbus"), on)
+        if out.raised:
+            raise EngineError(f"_update_q raised {out.exc!r}")
+        qg = gen.row_of(None, SV(g), ig.QG, p.it)
+        p.prove("update_q: a machine that is not running reports q = 0", z3.BoolVal(False) if isinstance(qg, Opaque) else to_z(qg, R) == 0,
+                meta=dict(part="update_q"), note="also when it held a value before (a gen switched off by the Q-limit loop keeps its limit value "
+                                                "only in the loop's own bookkeeping)")
+    vc.explore("_update_q", h, max_paths=20)
+
+
 def classify(ob, model):
     return ob.meta.get("part", "setpoints") + ":" + ob.meta.get("element", "")
 
 
 def replay(ob, model, finding=None):
+    if ob.meta.get("part") == "update_q":
+        return {"script": f"# replay of {ob.id}\nfrom replaylib.setpoints import main\nmain()\n",
+                "description": "power flows with enforce_q_lims whose limits become binding in successive rounds: reported q against what the "
+                               "network takes from each gen"}
     if ob.meta.get("part", "").startswith("shunt"):
         return {"script": f"# replay of {ob.id}\nfrom replaylib.setpoints import main_shunt\nmain_shunt()\n",
                 "description": "power flow with shunts (steps, own / missing voltage rating, out of service), wards and an xward: voltage law of "
